@@ -322,6 +322,18 @@ def cmd_check(prop, tier, nruns_override=None, workers=None, selftest=True):
         write_evidence(prop, tier, base, ad, agg, det, [], [], time.time() - t0, status='harness_error')
         return 2
     known_hits = agg['known']
+    if hasattr(ad, 'witness_plans'):
+        for wp in ad.witness_plans():
+            wr = ad.execute_isolated(wp)
+            for x in wr['violations']:
+                if x['key'] in known:
+                    h = known_hits.setdefault(x['key'], [0, -1])
+                    h[0] += 1
+                elif x['key'].split('@witness:')[0] not in known and not any(r_['key'] == x['key'] for r_ in reported):
+                    os.makedirs(os.path.join(core.OUT_DIR, 'replays'), exist_ok=True)
+                    path = os.path.join(core.OUT_DIR, 'replays', '%s-witness-%s.json' % (prop, core.sha(x['key'])[:8]))
+                    core.jdump({'property': prop, 'finding_key': x['key'], 'violation': x, 'readable': ad.describe(wp), 'plan': wp}, path)
+                    reported.append({'i': -1, 'key': x['key'], 'path': path, 'violation': x})
     for key in sorted(known_hits):
         print('KNOWN-FINDING: property=%s %s (%d runs hit it; first run index %d)' % (
             prop, known[key]['what'], known_hits[key][0], known_hits[key][1]))
